@@ -1,6 +1,11 @@
 import MtxVerif.Model.C20
 open MtxVerif MtxVerif.PathSM
 
+/-- pair automaton (same as `PathSM.alt` of Lemmas/C20Hooks, kept local so the driver stays small) -/
+def altRun : Bool → List Bool → Option Bool
+  | f, [] => some f
+  | f, b :: bs => if b = f then none else altRun b bs
+
 structure D where
   m : Drv.M := {}
   sp : C20.Spec := {}
@@ -11,6 +16,26 @@ def step (d : D) (op impl : String) : D × DrvOut :=
     -- hooks.OnRead / hooks.OnConnect called directly: start hook, then the returned closure once
     (d, { model := s!"h+{kind} h-{kind}", spec := if impl == s!"h+{kind} h-{kind}" then "ok"
             else s!"FAIL run-on-{kind} hook pair is not start-then-stop" })
+  | ["rtsp", evs] =>
+    -- the real RTSP session handlers against the session machine of Model/C20
+    let es := (evs.splitOn ",").filterMap fun e => match e with
+      | "setup" => some C20.REv.setup | "play" => some .play | "pause" => some .pause | "close" => some .close
+      | _ => none
+    let r := C20.rtspRun .initial es
+    let fmt := fun (l : List Bool) => if l.isEmpty then "-" else " ".intercalate (l.map fun b => if b then "h+read" else "h-read")
+    let toks := if impl == "-" then [] else words impl
+    let evsI := toks.filterMap fun t => if t == "h+read" then some true else if t == "h-read" then some false else none
+    let verdict :=
+      if toks.contains "PANIC" then "FAIL an RTSP session handler panicked (hook closure called twice?)"
+      else if evsI.length != toks.length then "FAIL unexpected token in the RTSP session trace"
+      else match altRun false evsI with
+        | none => "FAIL runOnRead/runOnUnread executions of the RTSP session do not alternate: " ++ impl
+        | some open_ =>
+          if open_ && es.contains .close then "FAIL RTSP session closed with an open runOnRead pair" else "ok"
+    (d, { model := fmt r.2, spec := verdict })
+  | ["rtspconn", c] =>
+    let m := if c == "1" then "h+connect h-connect" else "h+connect"
+    (d, { model := m, spec := if impl == m then "ok" else "FAIL runOnConnect/runOnDisconnect pair of the RTSP connection: " ++ impl })
   | _ =>
     let o := Drv.parseOp op
     let (m', _, ans) := Drv.exec d.m o
